@@ -273,6 +273,25 @@ func ConstArray(s Sort, v Term) Term {
 	return Term{"((as const " + string(s) + ") " + v.S + ")", s}
 }
 
+// ZeroArray is the array of sort s that maps every index to v. When v is not an SMT
+// value (it mentions a declared constant such as nil_any) a constant array term is not
+// portable (cvc5 rejects it): a named array with a defining axiom is used instead.
+func (r *Registry) ZeroArray(s Sort, v Term) Term {
+	val := strings.ReplaceAll(v.S, "nil_slice", "(mk_slice 0 0 0 0)")
+	if !strings.Contains(val, "nil_any") && !strings.Contains(val, "zero_") {
+		return Term{"((as const " + string(s) + ") " + val + ")", s}
+	}
+	name := "zarr_" + sanitize(string(s)) + "_" + fmt.Sprintf("%x", len(val)) + "_" + sanitize(val)
+	if len(name) > 80 {
+		name = name[:80]
+	}
+	if !r.seen[name] {
+		r.Declare(name, fmt.Sprintf("(declare-const %s %s)", name, s))
+		r.Axiom(fmt.Sprintf("(assert (forall ((i %s)) (! (= (select %s i) %s) :pattern ((select %s i)))))", arrayIdx(s), name, val, name))
+	}
+	return Term{name, s}
+}
+
 // ---------------------------------------------------------------------------
 // Global registry of sorts, datatypes, functions: everything that is not
 // path-specific. It is emitted in full at the head of every query.
@@ -320,6 +339,10 @@ func NewRegistry() *Registry {
 		"(assert (= (tagof nil_any) 0))",
 		"(declare-const nil_slice Slice)",
 		"(assert (= nil_slice (mk_slice 0 0 0 0)))",
+		// element i of slice s lives at index (sidx s i) of its backing array; an uninterpreted
+		// function (instead of the sum) keeps quantifier triggers free of arithmetic
+		"(declare-fun sidx (Slice Int) Int)",
+		"(assert (forall ((s Slice) (i Int)) (! (= (sidx s i) (+ (sl_off s) i)) :pattern ((sidx s i)))))",
 	)
 	return r
 }
@@ -570,7 +593,7 @@ func (r *Registry) Zero(t types.Type) Term {
 		return Term{"(" + si.ctor + " " + strings.Join(parts, " ") + ")", si.sort}
 	}
 	if a, ok := t.Underlying().(*types.Array); ok {
-		return ConstArray(s, r.Zero(a.Elem()))
+		return r.ZeroArray(s, r.Zero(a.Elem()))
 	}
 	// opaque zero: one constant per sort/type
 	name := "zero_" + sanitize(r.TypeKey(t))
